@@ -13,18 +13,14 @@ MX_CHIC_UNTRIMMED = 'CS2C8U6'     # any profile not starting with scCHIC: the li
 
 
 def rand_dna(r, n):
-    return ''.join(r.choice('ACGT') for _ in range(n))
+    return ''.join(r.choices('ACGT', k=n))
 
 
 def scrub_catg(seq, r):
     """remove accidental CATG so that only planted sites carry the motif"""
-    s = list(seq)
-    i = 0
-    j = ''.join(s).find('CATG')
-    while j != -1:
-        s[j + 1] = r.choice('CGT')
-        j = ''.join(s).find('CATG', max(0, j - 3))
-    return ''.join(s)
+    while 'CATG' in seq:
+        seq = seq.replace('CATG', 'CTTG')
+    return seq
 
 
 class Genome:
